@@ -62,8 +62,8 @@ AddState ==
           THEN /\ start' \in Starts
                /\ block' \in InitBlocks
                /\ block0' = block'
-               /\ plan' \in [M -> Plans]
-          ELSE UNCHANGED <<start, block, block0, plan>>
+          ELSE UNCHANGED <<start, block, block0>>
+    /\ UNCHANGED plan
     /\ UNCHANGED <<machineVars, hist>>
 
 MayFail(i, kind) == plan[i].kind = kind /\ plan[i].k = cur[i]
@@ -72,23 +72,25 @@ GNext ==
     \/ AddState
     \/ /\ phase = 0
        /\ ~AllReturned
-       /\ UNCHANGED <<phase, plan>>
-       /\ \/ Mine /\ hist' = Append(hist, [a |-> "Mine", i |-> 0, bad |-> FALSE, block |-> block', s |-> [pc |-> "-"]])
+       /\ UNCHANGED phase
+       /\ \/ Mine /\ UNCHANGED plan /\ hist' = Append(hist, [a |-> "Mine", i |-> 0, bad |-> FALSE, block |-> block', s |-> [pc |-> "-"]])
+          \/ \E i \in M :     \* the member's fault plan is drawn when it starts
+               Exec(i) /\ Log("Exec", i, FALSE) /\ \E p \in Plans : plan' = [plan EXCEPT ![i] = p]
           \/ \E i \in M :
-               \/ Exec(i) /\ Log("Exec", i, FALSE)
-               \/ StartReached(i) /\ Log("StartReached", i, FALSE)
-               \/ DelayReached(i) /\ Log("DelayReached", i, FALSE)
-               \/ InitiateEnd(i) /\ Log("InitiateEnd", i, FALSE)
-               \/ HandOff(i) /\ Log("HandOff", i, FALSE)
-               \/ EndBegin(i) /\ Log("EndBegin", i, FALSE)
-               \/ EndNext(i) /\ Log("EndNext", i, FALSE)
-               \/ MayFail(i, "start") /\ FailStart(i) /\ Log("FailStart", i, FALSE)
-               \/ MayFail(i, "delay") /\ FailDelay(i) /\ Log("FailDelay", i, FALSE)
-               \/ MayFail(i, "initiate") /\ FailInitiate(i) /\ Log("FailInitiate", i, FALSE)
-               \/ MayFail(i, "waiter") /\ FailWaiter(i) /\ Log("FailWaiter", i, FALSE)
-               \/ MayFail(i, "next") /\ FailNext(i) /\ Log("FailNext", i, FALSE)
-               \/ /\ nArr[i] < ArrivalsPerState * cur[i]     \* sampling bias only: spread arrivals over the states
-                  /\ \E b \in BadMsgs : Arrive(i, b) /\ Log("Arrive", i, b)
+               /\ UNCHANGED plan
+               /\ \/ StartReached(i) /\ Log("StartReached", i, FALSE)
+                  \/ DelayReached(i) /\ Log("DelayReached", i, FALSE)
+                  \/ InitiateEnd(i) /\ Log("InitiateEnd", i, FALSE)
+                  \/ HandOff(i) /\ Log("HandOff", i, FALSE)
+                  \/ EndBegin(i) /\ Log("EndBegin", i, FALSE)
+                  \/ EndNext(i) /\ Log("EndNext", i, FALSE)
+                  \/ MayFail(i, "start") /\ FailStart(i) /\ Log("FailStart", i, FALSE)
+                  \/ MayFail(i, "delay") /\ FailDelay(i) /\ Log("FailDelay", i, FALSE)
+                  \/ MayFail(i, "initiate") /\ FailInitiate(i) /\ Log("FailInitiate", i, FALSE)
+                  \/ MayFail(i, "waiter") /\ FailWaiter(i) /\ Log("FailWaiter", i, FALSE)
+                  \/ MayFail(i, "next") /\ FailNext(i) /\ Log("FailNext", i, FALSE)
+                  \/ /\ nArr[i] < ArrivalsPerState * cur[i]     \* sampling bias only: spread arrivals over the states
+                     /\ \E b \in BadMsgs : Arrive(i, b) /\ Log("Arrive", i, b)
 
 GSpec == GInit /\ [][GNext]_gvars
 
